@@ -36,7 +36,16 @@ RULE = (
     'all three calling conventions of convert / deduce_conversion_graph / conversion_graph, call sequences (same '
     'call again, refused call then the coordinate added, graphs handed out earlier mutated, deepcopy as input; '
     'repr / copy / == / pickle between two calls), caller subclasses of the containers, bins of different sizes, '
-    'the reported graph applied by the caller with transform_coords; one extra shard per run holds 12 conversions '
+    'the reported graph applied by the caller with transform_coords; ~1900 cases of state / aliasing / naming classes '
+    'on the same subsets: supplied coordinates modified in place (whole, one pixel, unit of the origin) between two '
+    'calls on the same object (second answer = answer for the new contents, first answer untouched), neutral '
+    'elements of the formulas as forced geometry (sample / source exactly at the origin, L1 = 0 with Ltotal derived, '
+    'pulse_time = 0), 2 / 4 / 8 / 9 / 10 pixels, names that merely NFKC-normalise to a target / coordinate name '
+    '(not that name: refused / not counted as supplied; origin look-alikes counted only); every case of the input-'
+    'class and state families ends with the aliasing checks (write in place into the computed coordinates of the '
+    'result: input unchanged, same call gives the original result; write into the arguments: result unchanged); '
+    'shards 0-3 each start one new interpreter that imports only the module of convert() and makes three calls '
+    '(outcome = model, coordinate bit-identical to the worker\'s); one extra shard per run holds 12 conversions '
     'on 2**20 + 7 pixels / 3 x 400001 events / 2**20 + 7 events in ragged bins; distinct = configurations x '
     'contents class x input class; trivial = none'
 )
@@ -565,6 +574,150 @@ def between_calls(kind, data, res0, graph, ctx):
             ctx.count('between:graph_not_picklable')
 
 
+# ------------------------------------------------------------ in-place writes, aliasing ---
+_SHIFT = np.array([0.125, -0.25, 0.5])
+_FACTOR = 1.0625
+
+
+def _arg_var(data, name, origin, binned):
+    """The coordinate object of the input as the caller reaches it (no copy)."""
+    if binned and name == origin:
+        return _item(data).bins.coords[name]
+    return data.coords[name]
+
+
+def modify_args(how, data, values, names, origin, binned, pixdim, ctx):
+    """Write in place into the supplied coordinates `names` of `data` and keep `values` (what the model reads) in
+    step.  how = 'values': whole coordinate (vectors += shift, others *= factor); 'slice': pixel 1 only;
+    'unit': the unit of the origin coordinate (same numbers, other unit).  Returns the number of coordinates written."""
+    written = 0
+    for nm in names:
+        if how == 'unit' and nm != origin:
+            continue
+        if how == 'slice' and nm not in PER_PIXEL:
+            continue
+        c = _arg_var(data, nm, origin, binned)
+        try:
+            if how == 'unit':
+                new, f = _UNIT2[origin]
+                if c.bins is not None:
+                    c.bins.unit = new
+                else:
+                    c.unit = new
+                values[nm] = np.asarray(values[nm]) * f
+                written += 1
+                continue
+            x = np.array(values[nm], dtype=np.float64)
+            if how == 'slice':
+                if pixdim not in c.dims or c.sizes[pixdim] < 2:
+                    continue
+                c = c[pixdim, 1]
+            unit = c.bins.unit if c.bins is not None else c.unit
+            if nm in VECTORS:
+                c += sc.vector(_SHIFT, unit=unit)
+                if how == 'slice':
+                    x[1] = x[1] + _SHIFT
+                else:
+                    x = x + _SHIFT
+            else:
+                c *= sc.scalar(_FACTOR)
+                if how == 'slice':
+                    x[1] = x[1] * _FACTOR
+                else:
+                    x = x * _FACTOR
+            values[nm] = x if x.ndim else np.float64(x)
+            written += 1
+        except (sc.VariableError, sc.UnitError) as e:
+            # read-only coordinate / unit of a partial view: the caller cannot make this change
+            ctx.count(f'inplace:not_possible:{type(e).__name__}')
+    return written
+
+
+def _derived(data, res):
+    """[(name, level)] of the coordinates of the result that the input does not have: computed by the call."""
+    src, obj = _item(data), _item(res)
+    out = [(nm, 'pixel') for nm in obj.coords if nm not in src.coords]
+    if isinstance(obj, sc.DataArray) and obj.bins is not None:
+        have = set(src.bins.coords) if isinstance(src, sc.DataArray) and src.bins is not None else set()
+        out += [(nm, 'event') for nm in obj.bins.coords if nm not in have]
+    return out
+
+
+def _res_var(res, name, level):
+    return _item(res).bins.coords[name] if level == 'event' else res.coords[name]
+
+
+def _derived_snapshot(data, res):
+    return {(nm, lv): _res_var(res, nm, lv).copy() for nm, lv in _derived(data, res)}
+
+
+def _changed(res, snap):
+    return [nm for (nm, lv), v in snap.items() if not sc.identical(_res_var(res, nm, lv), v, equal_nan=True)]
+
+
+def check_result_keeps(ctx, res, snap, case, vkeys, step):
+    """(l1) the result obtained earlier is a value of its own: writing into the arguments afterwards leaves it alone."""
+    ctx.event('alias:argument_written')
+    bad = _changed(res, snap)
+    if bad:
+        ctx.violation('aliasing', f'{step}: after the caller wrote in place into the supplied coordinates of the '
+                      f'input, the coordinates {bad} of the result returned earlier have different contents (they '
+                      'were computed from the coordinates present at the time of the call)', case,
+                      side='result_follows_argument', **vkeys)
+
+
+def alias_checks(ctx, data, res, call, values, present, origin, binned, pixdim, case, vkeys):
+    """(l2) write in place into the computed coordinates of the result: the arguments are unchanged and the same call
+    gives the original result again; then (l1) write into the arguments: the repeated result stays what it was."""
+    try:
+        data0, res0 = copy.deepcopy(data), copy.deepcopy(res)
+        written = 0
+        for nm, lv in _derived(data, res):
+            c = _res_var(res, nm, lv)
+            unit = c.bins.unit if c.bins is not None else c.unit
+            dtype = c.bins.dtype if c.bins is not None else c.dtype
+            try:
+                if dtype == sc.DType.vector3:
+                    c += sc.vector(_SHIFT, unit=unit)
+                elif dtype in (sc.DType.float64, sc.DType.float32):
+                    c += sc.scalar(1.0, unit=unit, dtype=dtype)
+                else:
+                    continue
+                written += 1
+            except sc.VariableError:
+                ctx.count('alias:result_coordinate_read_only')
+        if not written:
+            ctx.count('alias:nothing_computed')
+            return
+        same_input = sc.identical(data, data0, equal_nan=True)
+    except Exception:  # noqa: BLE001
+        ctx.oracle_error('C02 aliasing (write into result)')
+        return
+    ctx.event('alias:result_written')
+    if not same_input:
+        ctx.violation('aliasing', 'after the caller wrote in place into the computed coordinates of the result, the '
+                      'input data have different contents', case, side='argument_follows_result', **vkeys)
+    try:
+        again = call(data)
+    except Exception as e:  # noqa: BLE001
+        ctx.violation('aliasing', f'the same call on the same input raised {type(e).__name__} after the caller wrote '
+                      f'into the earlier result: {e}', case, side='repeat', **vkeys)
+        return
+    ctx.event('alias:repeat')
+    if not sc.identical(again, res0, equal_nan=True):
+        ctx.violation('aliasing', 'the same call on the same input gives a different result after the caller wrote in '
+                      'place into the computed coordinates of the earlier result', case, side='repeat', **vkeys)
+        return
+    try:
+        snap = _derived_snapshot(data, again)
+        n = modify_args('values', data, dict(values), [*present, origin], origin, binned, pixdim, ctx)
+    except Exception:  # noqa: BLE001
+        ctx.oracle_error('C02 aliasing (write into arguments)')
+        return
+    if n:
+        check_result_keeps(ctx, again, snap, case, vkeys, 'repeated call')
+
+
 def run_config(rng, ctx, scn, CV, watch, index, tracer, variant=None):
     origin, target, scatter, present = config_of(index)
     ax = (variant or {}).get('axis') or {}
@@ -574,6 +727,9 @@ def run_config(rng, ctx, scn, CV, watch, index, tracer, variant=None):
     if counts is not None:
         counts = np.asarray(counts, dtype=np.int64)
         values[origin] = rng.uniform(*ORIGIN_RANGE[origin], size=int(counts.sum()))
+    if ax.get('neutral'):
+        # a neutral element of the documented formula (x - 0, 0 + x), exactly
+        values[ax['neutral']] = np.zeros_like(values[ax['neutral']])
     select = special = None
     vn, vvar = ax.get('var'), None
     if variant is None:
@@ -618,8 +774,17 @@ def run_config(rng, ctx, scn, CV, watch, index, tracer, variant=None):
             except Exception:  # noqa: BLE001  (event coordinate: lives in the bins)
                 pass
         ctx.hit('supplied coordinates unaligned')
+    if ax.get('lookalike'):
+        # the coordinate is stored under a name that is not the documented one (it merely normalises to it): as far as
+        # the derivation is concerned it is not there
+        nm, look = ax['lookalike']
+        data.coords[look] = data.coords[nm]
+        del data.coords[nm]
+        present = [x for x in present if x != nm]
     have = [*present, *AUX, origin]
     verdict, nodes, mode = G.decide(origin, target, scatter, have)
+    if ax.get('target_form'):
+        verdict, nodes = 'refuse', 'no coordinate and no rule of that name'
     case = {'origin': origin, 'target': target, 'scatter': scatter, 'present': present, 'container': container,
             'binned': binned, 'model': verdict, 'model_detail': nodes, 'index': index, 'outer_dim': outer,
             'unaligned': unaligned}
@@ -646,7 +811,8 @@ def run_config(rng, ctx, scn, CV, watch, index, tracer, variant=None):
     case['scatter_flag_type'] = type(scatter_arg).__name__
     # the names are strings: callers also pass numpy strings or members of string enumerations
     form = NAME_FORMS.get(ax.get('names'), str)
-    o_arg, t_arg = form(origin), form(target)
+    o_arg, t_arg = form(ax.get('origin_form', origin)), form(ax.get('target_form', target))
+    pixdim = ax.get('pixdim') or 'pixel'
     style = index % 3  # documented parameter names and order: (data, origin, target, scatter)
 
     def call(d, t=t_arg):
@@ -685,6 +851,22 @@ def run_config(rng, ctx, scn, CV, watch, index, tracer, variant=None):
             return None
         return got, r
 
+    if ax.get('origin_form'):
+        # not one of the four origins (and no coordinate of that name)
+        for c in ax['cls']:
+            ctx.hit(STATE_CLASSES[c])
+        try:
+            r = call(data)
+        except Exception as e:  # noqa: BLE001
+            ctx.event('unicode:origin')
+            ctx.count(f'unicode:origin:refused:{type(e).__name__}')
+            return
+        ctx.event('unicode:origin')
+        # (the property quantifies over the four origins: an answer for another origin name is counted, not judged;
+        # the unchanged tree never looks at the origin when the energy mode is inelastic)
+        got = target in _item(r).coords or (binned and target in _item(r).bins.coords)
+        ctx.count('unicode:origin:answered:' + (mode if got and verdict == 'ok' else 'without_target'))
+        return
     # ---- call sequences: what happened to the same objects before this call
     pre, first = ax.get('pre'), None
     try:
@@ -702,6 +884,17 @@ def run_config(rng, ctx, scn, CV, watch, index, tracer, variant=None):
                 between_calls(pre, data, first[1], g0, ctx)
         elif pre == 'deepcopy_input':
             data = copy.deepcopy(data)
+        elif pre in ('modify_values', 'modify_slice', 'modify_unit'):
+            # (k) the very same objects, modified in place between two calls: the second answer is the one for the
+            # new contents; (l) the first answer stays what it was
+            r1 = first_call(data, verdict, 'first call')
+            if r1 is None:
+                return
+            snap = _derived_snapshot(data, r1[1]) if r1[0] == 'ok' else None
+            n_mod = modify_args(pre[7:], data, values, [*present, origin], origin, binned, pixdim, ctx)
+            ctx.count(f'inplace:{pre[7:]}:coordinates_written', n_mod)
+            if snap and n_mod:
+                check_result_keeps(ctx, r1[1], snap, case, vkeys, 'first call')
         elif pre == 'after_refusal':
             miss = ax['miss']
             saved = data.coords[miss]
@@ -742,7 +935,7 @@ def run_config(rng, ctx, scn, CV, watch, index, tracer, variant=None):
     ctx.count('model:' + verdict)
     if ax:
         for c in ax['cls']:
-            ctx.hit((AXIS_CLASSES | HEAVY_CLASSES)[c])
+            ctx.hit((AXIS_CLASSES | HEAVY_CLASSES | STATE_CLASSES)[c])
             ctx.count(f'class:{c}:{verdict}')
     elif variant is not None:
         ctx.hit(CONTENTS[vkeys['contents']])
@@ -751,6 +944,12 @@ def run_config(rng, ctx, scn, CV, watch, index, tracer, variant=None):
         # scipp's arithmetic does not define this operation for operands with variances (broadcast, sin, vector
         # assembly) and says so with a RuntimeError: counted, nothing to compare
         ctx.count('variances:refused_by_scipp:' + vclass)
+        return
+    if (outcome == 'refuse' and verdict == 'ok' and isinstance(err, sc.UnitError) and pre == 'modify_unit'
+            and target == 'time_at_sample'):
+        # pulse_time (us) + time of flight in another time unit: scipp's arithmetic does not convert units in a sum
+        # and says so with UnitError, a RuntimeError: counted, nothing to compare
+        ctx.count('inplace:unit:sum_of_times_in_two_units_refused_by_scipp')
         return
     if outcome != verdict:
         if verdict == 'ok':
@@ -850,6 +1049,12 @@ def run_config(rng, ctx, scn, CV, watch, index, tracer, variant=None):
             return
         if target in ('hkl_vec', 'h'):
             f = si.LD(1) if unit == sc.Unit('dimensionless') else None
+            if f is None and unit is not None:
+                # a pure number written with a scale (1/nm x angstrom): scipp's unit algebra gives the scale
+                try:
+                    f = si.LD(sc.to_unit(sc.scalar(1.0, unit=unit), 'dimensionless').value)
+                except sc.UnitError:
+                    f = None
         else:
             f = si.factor(unit) / si.factor(sc.Unit(UNIT[target]))
         if f is None:
@@ -972,6 +1177,9 @@ def run_config(rng, ctx, scn, CV, watch, index, tracer, variant=None):
                              'spurious': 'present although the target does not depend on it',
                              'shape': 'shape differs from the values'}[how], case, target=target, origin=origin,
                           how=how)
+    # ---- (l) the result and the arguments are values of their own
+    if ax and ax['family'] != 'heavy':
+        alias_checks(ctx, data, res, call, values, present, origin, binned, pixdim, case, vkeys)
 
 
 _SCALAR_LEAVES = ('L1', 'incident_energy')
@@ -1131,6 +1339,286 @@ def heavy_plan(seed):
     return out
 
 
+# ------------------------------------------------------------ state / aliasing / naming classes ---
+# The returned target is "what the documented formulas give from the coordinates that were present" at the time of
+# the call: a value of its own.  Classes in which that can fail although the values compared right after the call
+# are right (result sharing memory with an argument, answers remembered per object), plus forced geometry / size /
+# spelling classes.  Deterministic parts of every run (state_plan()).
+STATE_CLASSES = {
+    'inplace:values': 'every supplied coordinate modified in place (+= / *=) between two calls on the same object',
+    'inplace:slice': 'one pixel of every supplied per-pixel coordinate modified in place between two calls',
+    'inplace:unit': 'unit of the origin coordinate changed in place between two calls',
+    'neutral:sample': 'sample exactly at the origin (0-d zero vector in the unit of the positions)',
+    'neutral:source': 'source exactly at the origin (0-d zero vector in the unit of the positions)',
+    'neutral:L1': 'supplied L1 exactly zero',
+    'neutral:pulse_time': 'pulse_time exactly zero',
+    'sizes': 'number of pixels 2 / 4 / 8 / 9 / 10 (around the lengths of vectors and 3x3 matrices)',
+    'unicode:target': 'target spelled with compatibility characters that merely normalise (NFKC) to a target name',
+    'unicode:origin': 'origin spelled with compatibility characters that merely normalise (NFKC) to an origin name',
+    'unicode:coord': 'a coordinate whose name merely normalises (NFKC) to a geometry / energy coordinate name',
+}
+STATE_FAMILIES = ('inplace', 'neutral', 'sizes', 'unicode')
+ALIAS_EVENTS = ('alias:argument_written', 'alias:result_written', 'alias:repeat')
+_UNIT2 = {'tof': ('ms', 1e3), 'wavelength': ('nm', 10.0), 'energy': ('eV', 1e3), 'Q': ('1/nm', 0.1)}
+_FULLWIDTH = {chr(c): chr(c + 0xFEE0) for c in range(0x21, 0x7F)}
+_COMPAT = {'h': '\u210e', 'l': '\u2113', '1': '\u00b9', '2': '\u2082', 'Q': '\uff31'}
+
+
+def lookalike(name, k=0):
+    """A string that is not `name` but normalises (NFKC) to it: fullwidth first letter / fi ligature, letter-like
+    symbols (PLANCK CONSTANT, SCRIPT SMALL L, KELVIN SIGN), superscript / subscript digits / all fullwidth."""
+    import unicodedata
+
+    forms = [_FULLWIDTH[name[0]] + name[1:], ''.join(_FULLWIDTH[c] for c in name)]
+    if 'fi' in name:
+        forms.append(name.replace('fi', '\ufb01'))
+    sub = ''.join(_COMPAT.get(c, c) for c in name)
+    if sub != name:
+        forms.append(sub)
+    forms.append(name[:-1] + _FULLWIDTH[name[-1]])
+    out = forms[k % len(forms)]
+    assert out != name and unicodedata.normalize('NFKC', out) == name
+    return out
+
+
+def _class_subsets(seed):
+    """The coordinate subsets of axis_plan(): (base, index, present, verdict, nodes, mode, leaves)."""
+    rng = np.random.Generator(np.random.PCG64([seed, 97]))
+    seen = set()
+    for base in range(4 * 16 * 2):
+        origin, target, scatter, _ = config_of(base * 2048)
+        en = ('incident_energy', 'final_energy')[(base // 2) % 2]
+        other = ('incident_energy', 'final_energy')[1 - (base // 2) % 2]
+        extra = [en] if target == 'energy_transfer' else []
+        subsets = [[*G.SUBSET[:9], *extra], [*_POSITIONS, *extra]]
+        shallow = []
+        for mode in (('direct_inelastic', 'indirect_inelastic') if target == 'energy_transfer' else ('elastic',)):
+            sh = G.shallow_inputs(target, G.rules(origin, target, scatter, mode), given=(origin, *AUX))
+            if sh:
+                shallow.append(sh)
+        subsets += shallow
+        if shallow:
+            sh = shallow[0]
+            drop = sh[int(rng.integers(len(sh)))]
+            subsets.append([x for x in sh if x != drop])
+        subsets.append([*G.SUBSET[:9], *extra, other if extra else en])
+        for sub in subsets:
+            index = _subset_index(base, sub)
+            if index in seen:
+                continue
+            seen.add(index)
+            present = [x for x in G.SUBSET if x in sub]
+            have = [*present, *AUX, origin]
+            verdict, nodes, mode = G.decide(origin, target, scatter, have)
+            leaves = []
+            if verdict == 'ok':
+                leaves = G.used_inputs(target, have, G.table_for(origin, target, scatter, mode))
+            yield base, index, present, verdict, nodes, mode, leaves
+
+
+def state_plan(seed):
+    """[(index, variant)] for STATE_CLASSES, on the coordinate subsets of axis_plan(): per subset one case of each
+    family; sub-classes rotate separately for derivable and refused configurations.  Every case of these families
+    ends with the aliasing checks (write into the result, look at the arguments, repeat the call)."""
+    out, rot = [], {}
+
+    def nxt(key, options):
+        k = rot.get(key, 0)
+        rot[key] = k + 1
+        return options[k % len(options)]
+
+    def emit(index, axis, verdict, select=None):
+        # container x layout x (slice copied or not) rotate per class, separately for derivable / refused
+        j = nxt(('layout', axis['cls'][0], verdict), range(8))
+        v = {'container': ('dataarray', 'dataset')[j % 2], 'binned': bool((j // 2) % 2), 'copy': j >= 4, 'axis': axis}
+        if select:
+            v['select'] = select
+        out.append((index, v))
+
+    for _base, index, present, verdict, _nodes, _mode, leaves in _class_subsets(seed):
+        origin, target, scatter, _ = config_of(index)
+        # ---- (k)/(l) arguments modified in place between two calls on the same objects
+        how = nxt(('inplace', verdict), ['values', 'slice', 'unit', 'values'])
+        emit(index, {'family': 'inplace', 'cls': ['inplace:' + how], 'pre': 'modify_' + how}, verdict,
+             select=nxt(('inplace-select', verdict), [None, None, None, 'one', None, 'scalar'])
+             if how != 'slice' else None)
+        # ---- neutral elements of the formulas: x - 0, 0 + x
+        read = leaves if verdict == 'ok' else present
+        cand = [c for c, names in (('neutral:sample', ['sample_position']), ('neutral:source', ['source_position']),
+                                   ('neutral:L1', ['L1']),
+                                   ('neutral:sample', ['sample_position']))
+                if all(x in read for x in names)]
+        if 'pulse_time' in read:  # (few configurations read it: all of them get this class)
+            cand = ['neutral:pulse_time']
+        if cand:
+            c = nxt(('neutral', verdict), cand)
+            nm = {'sample': 'sample_position', 'source': 'source_position'}.get(c.split(':')[1], c.split(':')[1])
+            axis = {'family': 'neutral', 'cls': [c], 'neutral': nm}
+            emit(index, axis, verdict, select=nxt(('neutral-select', c, verdict), [None, None, None, 'scalar', None, 'one', None]))
+        # ---- (p) numbers of pixels around the lengths the implementation has inside (3-vectors, 3x3 matrices)
+        emit(index, {'family': 'sizes', 'cls': ['sizes'], 'n': nxt(('sizes', verdict), [2, 4, 8, 9, 10])}, verdict)
+        # ---- (n) names that are not the documented names but normalise to them
+        what = nxt(('unicode', verdict), ['target', 'coord', 'origin', 'coord'])
+        k = nxt('unicode-form', [0, 1, 2, 3, 4])
+        pool = [x for x in read if x in present]
+        if what == 'coord' and not pool:
+            what = 'target'
+        axis = {'family': 'unicode', 'cls': ['unicode:' + what]}
+        if what == 'coord':
+            nm = nxt('unicode-coord', pool)
+            axis['lookalike'] = (nm, lookalike(nm, k))
+        else:
+            axis[what + '_form'] = lookalike(origin if what == 'origin' else target, k)
+        emit(index, axis, verdict)
+    # a neutral element only shows where the quantity that consumes it is computed: supplied lengths without their
+    # sum (L1 = 0, Ltotal derived), for every (origin, target, scatter)
+    for base in range(4 * 16 * 2):
+        origin, target, scatter, _ = config_of(base * 2048)
+        sub = [x for x in G.SUBSET[:9] if x != 'Ltotal']
+        if target == 'energy_transfer':
+            sub.append(('incident_energy', 'final_energy')[(base // 2) % 2])
+        index = _subset_index(base, sub)
+        verdict = G.decide(origin, target, scatter, [*sub, *AUX, origin])[0]
+        emit(index, {'family': 'neutral', 'cls': ['neutral:L1'], 'neutral': 'L1'}, verdict,
+             select=nxt(('neutral-select', 'neutral:L1', verdict), [None, None, None, 'scalar', None, 'one', None]))
+    return out
+
+
+# ------------------------------------------------------------ first call in a fresh interpreter ---
+# (o) The answer does not depend on what the process imported or called before: a new interpreter that imports only
+# numpy / scipp (to hold the data) and the module that defines convert() gives, on its first calls, the outcome the
+# model predicts and bit for bit the coordinate the worker process gets for the same data.
+_FRESH_BUILD = r"""
+import numpy as np
+import scipp as sc
+
+
+def fresh_build(spec):
+    coords = {}
+    for name, (kind, unit, x) in spec['coords'].items():
+        x = np.asarray(x, dtype=np.float64)
+        if kind == 'vectors':
+            coords[name] = sc.vectors(dims=['pixel'], values=x, unit=unit)
+        elif kind == 'vector':
+            coords[name] = sc.vector(x, unit=unit)
+        elif kind == 'matrix':
+            coords[name] = sc.spatial.linear_transform(value=x, unit=unit)
+        elif kind == 'scalar':
+            coords[name] = sc.scalar(float(x), unit=unit)
+        else:
+            coords[name] = sc.array(dims=['pixel'], values=x, unit=unit)
+    n = spec['n']
+    return sc.DataArray(sc.ones(dims=['pixel'], shape=[n], unit='counts'), coords=coords)
+
+
+def fresh_result(fn, da, call):
+    try:
+        r = fn(da, call['origin'], call['target'], call['scatter'])
+    except RuntimeError:
+        return {'outcome': 'refuse'}
+    except Exception as e:
+        return {'outcome': 'other', 'exc': type(e).__name__, 'msg': str(e)[:300]}
+    c = r.coords[call['target']]
+    return {'outcome': 'ok', 'unit': str(c.unit), 'dtype': str(c.dtype), 'shape': list(c.values.shape),
+            'values': [float(v).hex() for v in np.asarray(c.values, dtype=np.float64).ravel()]}
+"""
+_FRESH_MAIN = r"""
+import json
+import sys
+
+spec = json.loads(sys.stdin.read())
+das = [fresh_build(c['data']) for c in spec['calls']]
+print('READY', flush=True)
+try:
+    from scippneutron.core.conversions import convert
+except BaseException as e:
+    print(json.dumps({'import_error': type(e).__name__, 'msg': str(e)[:300]}), flush=True)
+    raise SystemExit(0)
+for da, call in zip(das, spec['calls']):
+    print(json.dumps(fresh_result(convert, da, call)), flush=True)
+"""
+
+
+def _fresh_spec(values, names, origin, n):
+    coords = {}
+    for nm in names:
+        x = np.asarray(values[nm], dtype=np.float64)
+        unit = {'incident_energy': 'meV', 'final_energy': 'meV', 'position': 'm', 'source_position': 'm',
+                'sample_position': 'm', 'ub_matrix': '1/angstrom', 'sample_rotation': 'dimensionless',
+                'pulse_time': 'us'}.get(nm) or UNIT[nm]
+        kind = ('matrix' if nm in ('ub_matrix', 'sample_rotation') else 'vectors' if x.ndim == 2 else
+                'vector' if x.shape == (3,) and nm in VECTORS else 'scalar' if x.ndim == 0 else 'array')
+        coords[nm] = (kind, unit, x.tolist())
+    return {'coords': coords, 'n': n}
+
+
+def fresh_interpreter(ctx, shard, scn):
+    import json
+    import subprocess
+    import sys
+
+    part = shard['part']
+    rng = np.random.Generator(np.random.PCG64([shard['seed'], 94, part]))
+    origin = G.ORIGINS[part % 4]
+    calls, models = [], []
+    # the first call is one the model answers with a quantity of another kind than the origin (not a geometry
+    # target: the conversion itself runs); the others are drawn from all targets x scatter (refusals included)
+    for k in range(3):
+        for _ in range(200):
+            target = G.TARGETS[int(rng.integers(len(G.TARGETS)))]
+            scatter = bool(rng.integers(2))
+            sub = [*_POSITIONS, *(['incident_energy', 'final_energy'][int(rng.integers(2)):][:1]
+                                  if target == 'energy_transfer' or rng.random() < 0.2 else [])]
+            have = [*sub, *AUX, origin]
+            verdict, _nodes, _mode = G.decide(origin, target, scatter, have)
+            if k > 0 or (verdict == 'ok' and target != origin and target not in G.GEOMETRY_TARGETS):
+                break
+        values = make_values(rng, origin, N)
+        calls.append({'origin': origin, 'target': target, 'scatter': scatter,
+                      'data': _fresh_spec(values, have, origin, N)})
+        models.append(verdict)
+    ns = {}
+    exec(_FRESH_BUILD, ns)  # noqa: S102  (the same builder source the new interpreter runs)
+    try:
+        proc = subprocess.run([sys.executable, '-c', _FRESH_BUILD + _FRESH_MAIN], input=json.dumps({'calls': calls}),  # noqa: S603
+                              capture_output=True, text=True, timeout=300, check=False)
+        lines = proc.stdout.splitlines()
+        if not lines or lines[0] != 'READY':
+            raise RuntimeError(f'harness failed before the package was imported: {proc.stderr[-500:]}')
+        got = [json.loads(x) for x in lines[1:]]
+        mine = [ns['fresh_result'](scn.convert, ns['fresh_build'](c['data']), c) for c in calls]
+    except Exception:  # noqa: BLE001
+        ctx.oracle_error('C02 fresh interpreter')
+        return
+    ctx.hit(FRESH_CLASS)
+    case = {'class': 'fresh interpreter', 'part': part,
+            'calls': [{k: v for k, v in c.items() if k != 'data'} | {'present': sorted(c['data']['coords'])}
+                      for c in calls], 'model': models}
+    if got and 'import_error' in got[0]:
+        ctx.event('fresh_interpreter')
+        ctx.violation('fresh_interpreter', f'a new interpreter cannot import the module that defines convert(): '
+                      f'{got[0]["import_error"]}: {got[0]["msg"]}', case, how='import')
+        return
+    for k, (c, want) in enumerate(zip(calls, models, strict=True)):
+        ctx.event('fresh_interpreter')
+        label = f'call {k + 1} in a new interpreter ({c["origin"]} -> {c["target"]}, scatter={c["scatter"]})'
+        if k >= len(got):
+            ctx.violation('fresh_interpreter', f'{label}: the interpreter ended without an answer '
+                          f'(exit code {proc.returncode}): {proc.stderr[-300:]}', case, how='crash')
+            return
+        g = got[k]
+        if g['outcome'] != want:
+            ctx.violation('fresh_interpreter', f'{label}: outcome {g["outcome"]} {g.get("exc", "")} {g.get("msg", "")}, '
+                          f'the model says {want}', case, how='outcome')
+        elif g != mine[k]:
+            ctx.violation('fresh_interpreter', f'{label}: the coordinate differs from the one the worker process '
+                          f'obtains for the same data ({g} / {mine[k]})', case, how='value')
+        ctx.count(f'fresh:{want}')
+
+
+FRESH_CLASS = 'first calls in a new interpreter that imported only the module of convert()'
+
+
 def quick_indices(rng):
     idx = set()
     small = [s for s in range(2048) if bin(s).count('1') <= 2 or bin(s).count('1') >= 9]
@@ -1158,15 +1646,26 @@ def requirements(tier):
                                             ('one+nan_all', 30), ('scalar+nan_all', 30))})
     ev.update({'value:' + f: 100 for f in FAMILIES})
     ev['value:heavy'] = 12
+    ev.update({'value:inplace': 100, 'value:neutral': 60, 'value:sizes': 100, 'value:unicode': 30,
+               'unicode:origin': 50, 'fresh_interpreter': 12, 'alias:argument_written': 1000, 'alias:result_written': 1000,
+               'alias:repeat': 1000})
     counters = {'model:ok': 1000, 'model:refuse': 1000, 'contents:empty:ok': 200, 'contents:empty:refuse': 200}
     # every class met derivable and refused configurations (variances: derivable only)
     for c in AXIS_CLASSES:
         counters[f'class:{c}:ok'] = 5
         if not c.startswith('var:') and c != 'second:after_refusal':
             counters[f'class:{c}:refuse'] = 5
+    for c in STATE_CLASSES:
+        if c not in ('unicode:target', 'unicode:origin'):
+            counters[f'class:{c}:ok'] = 5 if c != 'neutral:pulse_time' else 3
+        if c not in ('unicode:origin', 'neutral:pulse_time'):
+            counters[f'class:{c}:refuse'] = 5
+    counters['inplace:values:coordinates_written'] = 100
+    counters['inplace:slice:coordinates_written'] = 100
+    counters['inplace:unit:coordinates_written'] = 50
     return {'events': ev, 'counters': counters,
             'forced': ['supplied coordinates unaligned', *CONTENTS.values(), *AXIS_CLASSES.values(),
-                       *HEAVY_CLASSES.values()]}
+                       *HEAVY_CLASSES.values(), *STATE_CLASSES.values(), FRESH_CLASS]}
 
 
 def _run_variants(ctx, shard, items, run_one, tag_of, max_samples):
@@ -1248,6 +1747,18 @@ def run(shard, ctx):
             run_config(vrng, ctx, scn, CV, watch, index, tr, variant=variant)
 
         _run_variants(ctx, shard, aplan[shard['part']::shard['parts']], one, axis_tag, 8)
+        # state / aliasing / naming classes: in-place modification between calls, neutral elements, sizes, spellings
+        splan = state_plan(shard['seed'])
+        ctx.extra['state_class_cases'] = len(splan)
+
+        def one(k, index, variant):
+            vrng = np.random.Generator(np.random.PCG64([shard['seed'], index, 6, k]))
+            run_config(vrng, ctx, scn, CV, watch, index, tr, variant=variant)
+
+        _run_variants(ctx, shard, splan[shard['part']::shard['parts']], one, axis_tag, 8)
+    # (o) one new interpreter per shard 0..3 (one origin each), three calls in each
+    if shard['part'] < 4:
+        fresh_interpreter(ctx, shard, scn)
 
 
 TECHNIQUE = ('runtime outcome monitor on convert() + trace of the kernels that ran and of the graph handed to '
@@ -1259,7 +1770,9 @@ LEVEL_TEXT = ('exploration, exhaustive in the configuration part: thorough enume
               'documented derivation rule evaluated in long double on mutually inconsistent coordinates. Coordinate '
               'values are sampled (one random draw per configuration).  Further input classes (variances with a first-'
               'order propagation oracle, masks, dimension names, item counts of Datasets, string / flag types, call '
-              'sequences, display / copy between calls, subclasses, ragged bins, sizes beyond 2**20) are '
+              'sequences, display / copy between calls, subclasses, ragged bins, sizes beyond 2**20, in-place '
+              'modification of the arguments between calls, memory aliasing of result and arguments, neutral elements '
+              'as forced geometry, non-normalised spellings, first calls in a new interpreter) are '
               'deterministic parts of every run on five coordinate subsets per (origin, target, scatter).')
 LEVEL_NOTE = ('trusted: the derivation rule as documented in the user guide, numpy long double, scipp '
               'transform_coords as the engine being driven')
